@@ -1,3 +1,51 @@
-From Coq Require Import Reals List.
-Theorem placeholder : True. Proof. exact I. Qed.
-Print Assumptions placeholder.
+(* C06  K-means training descends the true distortion and stops by its stated rule. *)
+From Coq Require Import Reals List Lra.
+From BLE Require Import Num.InstR Model.KMeans Proofs.RLemmas Proofs.KMeansR.
+Import ListNotations KR.
+Open Scope R_scope.
+
+(* while every cluster keeps at least one sample an iteration does not increase the distortion *)
+Theorem C06_descent (nf : nat) (cents X cents' : list (list R)) (crit : R) :
+  cents <> [] -> rows_ok nf X -> rows_ok nf cents ->
+  (forall k, (k < length cents)%nat -> members cents k X <> []) ->
+  em_iter nf [X] cents = Some (cents', crit) ->
+  J cents' X <= J cents X.
+Proof. exact (kmeans_descent nf cents X cents' crit). Qed.
+Print Assumptions C06_descent.
+
+(* every returned centroid is the mean of the samples nearest to its predecessor (an empty cluster
+   keeps its centroid); the reported criterion is the mean squared distance to the nearest of the
+   centroids ENTERING the iteration *)
+Theorem C06_centroid_is_mean_and_criterion (nf : nat) (cents X cents' : list (list R)) (crit : R) :
+  em_iter nf [X] cents = Some (cents', crit) ->
+  length cents' = length cents
+  /\ crit = J cents X / INR (length X)
+  /\ forall k, (k < length cents)%nat ->
+       nth k cents' [] = (if Nat.eqb (length (members cents k X)) 0 then nth k cents [] else vmean nf (members cents k X)).
+Proof. exact (em_iter_spec nf cents X cents' crit). Qed.
+Print Assumptions C06_centroid_is_mean_and_criterion.
+
+Theorem C06_assignment_is_nearest (cents : list (list R)) (x : list R) : cents <> [] ->
+  let k := closest cents x in
+  (k < length cents)%nat
+  /\ (forall j, (j < length cents)%nat -> nth k (dists cents x) 0 <= nth j (dists cents x) 0)
+  /\ (forall j, (j < k)%nat -> nth k (dists cents x) 0 < nth j (dists cents x) 0).
+Proof. exact (predict_is_argmin cents x). Qed.
+Print Assumptions C06_assignment_is_nearest.
+
+Theorem C06_mean_minimises_squared_distance (nf : nat) (M : list (list R)) (c : list R) :
+  M <> [] -> rows_ok nf M -> length c = nf ->
+  rsum (map (sqdist (vmean nf M)) M) <= rsum (map (sqdist c) M).
+Proof. exact (mean_optimal nf M c). Qed.
+Print Assumptions C06_mean_minimises_squared_distance.
+
+(* any chunking of the rows gives the same iteration (centroids AND criterion) as the whole array *)
+Theorem C06_iteration_chunk_independent (nf : nat) (cents B0 : list (list R)) (Bs : list (list (list R))) :
+  rows_ok nf B0 -> Forall (rows_ok nf) Bs ->
+  em_iter nf (B0 :: Bs) cents = em_iter nf [concat (B0 :: Bs)] cents.
+Proof. exact (em_iter_chunk_independent nf cents B0 Bs). Qed.
+Print Assumptions C06_iteration_chunk_independent.
+
+Example C06_nonvacuous : rows_ok 1 [[0]; [1]; [5]] /\ closest [[0]; [5]] [1] = 0%nat.
+Proof. split. repeat constructor. unfold closest, dists, sqdist, V.argmin; simpl. unfold V.sqr; unfold_R.
+  unfold InstR.ltb. destruct (Rlt_dec _ _) as [H|H]; [exfalso; lra | reflexivity]. Qed.
